@@ -2,7 +2,7 @@
 # usage: selftest/verify_seed.sh <worktree> <a|b> <PROP>   -> verifies the sub-agent's seeded change independently and, if confirmed,
 # stores it as /verif/seeded/<PROP>-<a|b>/ {patch.diff, demo test, meta.json}
 set -u
-WT="$1"; X="$2"; PROP="$3"
+WT="$1"; X="$2"; PROP="$3"; OUTX="${4:-$2}"
 export GOFLAGS=-mod=mod GOPROXY=off GOSUMDB=off GOTOOLCHAIN=local
 SEED="$WT/_seed"
 PATCH="$SEED/$X.patch.diff"; DEMO=$(ls "$SEED"/zz_seed_demo_${X}_test.go 2>/dev/null | head -1)
@@ -25,7 +25,7 @@ demo with; RC_WITH=$?
 git diff > "$SCR/patch.rebased.diff" 2>/dev/null || true
 echo "demo_without_rc=$RC_WITHOUT build_rc=$RC_BUILD/$RC_BUILD2 suite_ok=$SUITE_OK demo_with_rc=$RC_WITH"
 if [ $RC_WITHOUT -eq 0 ] && [ $RC_BUILD -eq 0 ] && [ $RC_BUILD2 -eq 0 ] && [ $SUITE_OK -eq 1 ] && [ $RC_WITH -ne 0 ]; then
-  OUT="/verif/seeded/$PROP-$X"; mkdir -p "$OUT"
+  OUT="/verif/seeded/$PROP-$OUTX"; mkdir -p "$OUT"
   # store the patch as it applies to the current HEAD
   ( cd "$SCR/lime-go" && git add -A >/dev/null 2>&1; git -c user.email=x -c user.name=x commit -qm base >/dev/null 2>&1 ) || true
   ( cd "$SCR" && rm -rf base && mkdir base && cd base && ( cd /repo && git archive HEAD ) | tar -x && cd .. && diff -ruN --exclude=.git base lime-go | sed 's#^--- base/#--- a/#; s#^+++ lime-go/#+++ b/#; s#^diff -ruN --exclude=.git base/\(.*\) lime-go/\(.*\)#diff --git a/\1 b/\2#' > "$OUT/patch.diff" )
